@@ -72,8 +72,8 @@ impl Files {
         }
     }
     fn is_valid(&self, kind: &str) -> bool {
-        // by convention valid contents have kinds starting with an upper-case letter other than S/R/X
-        self.texts.contains_key(kind) && !matches!(kind.chars().next(), Some('S') | Some('R') | Some('X'))
+        // by convention the contents that parse have kinds not starting with S (syntax) or R (refused)
+        self.texts.contains_key(kind) && !matches!(kind.chars().next(), Some('S') | Some('R'))
     }
     fn write(&mut self, i: usize, kind: &str) -> Result<(), String> {
         let p = &self.paths[i];
@@ -391,7 +391,7 @@ fn run_case(names: &KeyNames, case: &Value, scratch: &Path, w: &mut dyn Write) -
     for si in 0..na {
         let la = a.obs[si].clone();
         let lb = match (&b, first_repl) {
-            (Some(b), fr) if fr.map(|f| si < f).unwrap_or(true) && si < b.obs.len() => b.obs[si].clone(),
+            (Some(b), fr) if fr.map(|f| si <= f).unwrap_or(true) && si < b.obs.len() => b.obs[si].clone(),
             _ => off.clone(),
         };
         let lc = match &c {
